@@ -123,6 +123,20 @@ class Gen:
 
     def doc(self, indent=""):
         """maybe emit a doc comment directly above the next declaration; returns its id or None"""
+        if self.docs and getattr(self, "ext", False) and self.r.random() < 0.2:
+            # a comment that does NOT immediately precede the declaration (blank line in between): belongs to nothing
+            self.docid += 1
+            dd = f"detached#{self.name}_{self.docid}"
+            st = self.r.randrange(3)
+            if st == 0:
+                self.h.append(f"{indent}// {dd}")
+            elif st == 1:
+                self.h.append(f"{indent}// section header {dd}")
+                self.h.append(f"{indent}// continued")
+            else:
+                self.h.append(f"{indent}/* {dd} */")
+            for _ in range(self.r.choice([1, 1, 2])):
+                self.h.append("")
         if not self.docs or self.r.random() < 0.35:
             return None
         self.docid += 1
@@ -455,14 +469,16 @@ class Gen:
                 names.insert(0, v)
         inits = [f"{q}({arg})" for q in names]
         for m in cls.get("members", []):
-            if m.get("const") and not m.get("static"):
+            if m.get("classmember"):
+                inits.append(f"{m['name']}(vf::PoolTag())")
+            elif m.get("const") and not m.get("static"):
                 inits.append(f"{m['name']}({m['init']})")
         return (" : " + ", ".join(inits)) if inits else ""
 
     def member_inits(self, cls):
         out = []
         for m in cls.get("members", []):
-            if m.get("static") or m.get("const"):
+            if m.get("static") or m.get("const") or m.get("classmember"):
                 continue
             if m.get("array"):
                 out.append(f"  for (int vf_i = 0; vf_i < {m['array']}; ++vf_i) {m['name']}[vf_i] = {m['init']};")
@@ -527,9 +543,35 @@ class Gen:
             elif x < 0.3 and not m["array"] and m["type"]["k"] in ("int", "float"):
                 m["const"] = True
             members_decl.append(m)
+        if getattr(self, "ext", False) and r.random() < 0.6:
+            # the same member declared twice: once spelled directly, once through a typedef (accessors must agree)
+            tw = r.choice(["const-int", "int", "class"])
+            n2 = r.randrange(10000)
+            others = [c for c in self.classes.values() if c.get("complete") and not c.get("abstract") and c.get("copyable", True)
+                      and not c.get("template") and c["qname"] != q]
+            if tw == "class" and not others:
+                tw = "int"
+            if tw == "class":
+                oc = r.choice(others)
+                self.h.append(f"{ind}typedef {oc['qname']} TwAlias{n2};")
+                ty = dict(k="obj", cls=oc["qname"], mode="val")
+                a = dict(name=f"tw_direct_{n2}", qname=q + f"::tw_direct_{n2}", static=False, const=False, array=None, doc=None,
+                         type=ty, init=None, twin=f"tw_alias_{n2}", raw=f"{oc['qname']} tw_direct_{n2};", classmember=oc["qname"])
+                bb = dict(a, name=f"tw_alias_{n2}", qname=q + f"::tw_alias_{n2}", twin=f"tw_direct_{n2}", raw=f"TwAlias{n2} tw_alias_{n2};")
+            else:
+                cst = tw == "const-int"
+                self.h.append(f"{ind}typedef {'const ' if cst else ''}int TwAlias{n2};")
+                a = dict(name=f"tw_direct_{n2}", qname=q + f"::tw_direct_{n2}", static=False, const=cst, array=None, doc=None,
+                         type=T("int", c="int"), init=str(r.randrange(50)), twin=f"tw_alias_{n2}",
+                         raw=f"{'const ' if cst else ''}int tw_direct_{n2};")
+                bb = dict(a, name=f"tw_alias_{n2}", qname=q + f"::tw_alias_{n2}", twin=f"tw_direct_{n2}", raw=f"TwAlias{n2} tw_alias_{n2};")
+            members_decl += [a, bb]
         cls["members"] = members_decl
         for m in members_decl:
             m["doc"] = self.doc(ind)
+            if m.get("raw"):
+                self.h.append(ind + m["raw"])
+                continue
             ts = ctype(m["type"])
             arr = f"[{m['array']}]" if m["array"] else ""
             self.h.append(f"{ind}{'static ' if m['static'] else ''}{'const ' if m['const'] else ''}{ts} {m['name']}{arr};")
@@ -554,12 +596,12 @@ class Gen:
         binit = ", ".join(f"{b}(static_cast<const {b} &>(vf_o))" for b in
                           ([v for v in self.all_vbases(cls) if v not in [bb for bb, _ in bases]] +
                            [b for b, _ in bases]))
-        cinit = [f"{m['name']}(vf_o.{m['name']})" for m in members_decl if m["const"] and not m["static"]]
+        cinit = [f"{m['name']}(vf_o.{m['name']})" for m in members_decl if (m["const"] and not m["static"]) or m.get("classmember")]
         allinit = ", ".join(x for x in [binit] + cinit if x)
         self.cx.append(f"{q}::{name}(const {name} &vf_o){' : ' + allinit if allinit else ''} {{")
         self.cx.append(f"  vf::reg(this, sizeof(*this), \"{q}\");")
         for m in members_decl:
-            if m["static"] or m["const"]:
+            if m["static"] or m["const"] or m.get("classmember"):
                 continue
             if m["array"]:
                 self.cx.append(f"  for (int vf_i = 0; vf_i < {m['array']}; ++vf_i) {m['name']}[vf_i] = vf_o.{m['name']}[vf_i];")
@@ -651,6 +693,24 @@ class Gen:
         if r.random() < 0.5 * self.size:
             for op in r.sample(["==", "+", "[]c", "()", "neg", "cast", "<"], r.choice([1, 2, 3])):
                 cls["methods"].append(self.gen_operator(cls, op, ind))
+        if getattr(self, "ext", False) and r.random() < 0.3 and not any(m["name"] == "operator []" for m in cls["methods"]):
+            # reference-returning subscript operators (item assignment is synthesised only for the non-const T& form)
+            form = r.choice(["ref+const", "constref-nonconst", "ref"])
+            self.h.append("public:")
+            self.h.append(f"{ind}int vf_items[4];")
+            self.h.append("PUBLISHED:")
+            if form in ("ref+const", "ref"):
+                self.h.append(f"{ind}int &operator [](int idx);")
+                self.cx.append(f"int &{q}::operator [](int idx) {{ return vf_items[idx & 3]; }}")
+            if form == "ref+const":
+                self.h.append(f"{ind}int operator [](int idx) const;")
+                self.cx.append(f"int {q}::operator [](int idx) const {{ return vf_items[idx & 3]; }}")
+            if form == "constref-nonconst":
+                self.h.append(f"{ind}const int &operator [](int idx);")
+                self.cx.append(f"const int &{q}::operator [](int idx) {{ return vf_items[idx & 3]; }}")
+            self.h.append(f"{ind}int size() const;")
+            self.cx.append(f"int {q}::size() const {{ return 4; }}")
+            cls["raw_subscript"] = form
         # property / sequence
         if r.random() < 0.5:
             self.gen_property(cls, ind)
